@@ -194,6 +194,14 @@ func (a *Attributes) XXX_UnmarshalByFlags(flags uint32, buf *Buffer) (err error)
 	if a.Flags&AttrExtended != 0 {
 		count := buf.ConsumeCount()
 
+		// Each extended attribute occupies at least 8 bytes (two length-prefixed strings),
+		// so a count larger than the remaining bytes could hold is malformed.
+		// Refuse it before sizing an allocation from it.
+		if buf.Err == nil && count > buf.Len()/8 {
+			buf.Err = ErrShortPacket
+			return buf.Err
+		}
+
 		a.ExtendedAttributes = make([]ExtendedAttribute, count)
 		for i := range a.ExtendedAttributes {
 			a.ExtendedAttributes[i].UnmarshalFrom(buf)
